@@ -44,6 +44,7 @@ Checks(e) ==
   <<"local_inmotif_clustering(c)", Vec(e, "local_inmotif_clustering(c)", LAMBDA k : WInMotif(G, R, k))>>,
   <<"local_outmotif_clustering(c)", Vec(e, "local_outmotif_clustering(c)", LAMBDA k : WOutMotif(G, R, k))>>,
   <<"path_lengths(c)", Mat(e, "path_lengths(c)", LAMBDA a, b : IF WD[a][b] >= INFD THEN INF ELSE S * WD[a][b])>>,
+  <<"assortativity", (und /\ AssortDen(G) > 0) => Sca(e, "assortativity", Assortativity(G))>>,
   <<"degree", Vec(e, "degree", LAMBDA k : S * Deg(G, k))>>,
   <<"indegree", Vec(e, "indegree", LAMBDA k : S * InDeg(G, k))>>,
   <<"outdegree", Vec(e, "outdegree", LAMBDA k : S * OutDeg(G, k))>>,
